@@ -564,6 +564,12 @@ func concurrent(id string, seed uint64, c cfg) runner.Result {
 // handles: the pool is used through the connections Get hands out (Invoke, NewStream, Close on the
 // handle) rather than through Put/Take: underlying connections are dialed on demand, returned to the
 // pool when a call returns or a stream finishes, and must never serve two callers at once.
+var doneCtx = func() context.Context {
+	ctx, cancel := context.WithCancel(context.Background())
+	cancel()
+	return ctx
+}()
+
 func handles(id string, seed uint64, c cfg) runner.Result {
 	r := &payload.SplitMix{S: seed}
 	opts := drpcpool.Options{Capacity: c.cap, KeyCapacity: c.kcap, Expiration: c.exp}
@@ -618,8 +624,14 @@ func handles(id string, seed uint64, c cfg) runner.Result {
 		h := hs[r.Intn(len(hs))]
 		switch op := r.Intn(10); {
 		case op < 3:
-			err := h.conn.Invoke(context.Background(), "/x", nil, nil, nil)
-			hist = append(hist, fmt.Sprintf("%s.Invoke", h.name))
+			// every fifth call comes with a context that is over already: whatever the handle
+			// decides to do with it, the connections it touches stay accounted for
+			ctx, what := context.Background(), "Invoke"
+			if r.Intn(5) == 0 {
+				ctx, what = doneCtx, "Invoke(ctx-already-cancelled)"
+			}
+			err := h.conn.Invoke(ctx, "/x", nil, nil, nil)
+			hist = append(hist, fmt.Sprintf("%s.%s", h.name, what))
 			if h.closed && err == nil {
 				fails = append(fails, fmt.Sprintf("%s.Invoke succeeded after %s.Close", h.name, h.name))
 			}
@@ -628,7 +640,11 @@ func handles(id string, seed uint64, c cfg) runner.Result {
 			if refuse {
 				atomic.StoreInt32(&tr.failNew, 1)
 			}
-			st, err := h.conn.NewStream(context.Background(), "/x", nil)
+			sctx := context.Background()
+			if refuse && r.Intn(2) == 0 {
+				sctx = doneCtx // refused because the caller's context is over
+			}
+			st, err := h.conn.NewStream(sctx, "/x", nil)
 			atomic.StoreInt32(&tr.failNew, 0)
 			nstream++
 			if refuse {
@@ -795,7 +811,7 @@ func main() {
 	runner.Main(runner.Check{
 		Property: "C15",
 		Level:    "exploration",
-		Rule:     "one case = one history on one pool of fake connections: (seq) 4-24 seeded Put/Take/put-back/outside-close/unblock operations over 1-3 keys for every (Capacity, KeyCapacity) in {-1,0,1,2,3}^2 with no expiry firing; (expiry) Expiration=1ms, an expiry callback parked at one of its three internal points (fired / after Close / before the lock), 1-5 operations (Take, Put, put-back, pool.Close) run inside that window, release, more operations; (concurrent) 4 goroutines x 120 Put/Take over 2-3 keys with perturbed scheduling, with and without expiry, in half of the cases with connections whose Close takes 20-220 us; (handles) 2-3 connection handles from Pool.Get over 1-2 keys, 6-19 seeded Invoke / NewStream (a quarter of them refused by the underlying connection, which stays open) / finish-a-stream / handle.Close operations: an underlying connection never serves two callers at once and never after it was closed, a wrapped stream's context ends only after the stream finished, every dialed connection ends up closed exactly once. After every operation and in every window the pool is walked under its lock. Non-trivial: histories of >= 3 operations. Distinct: by configuration and history.",
+		Rule:     "one case = one history on one pool of fake connections: (seq) 4-24 seeded Put/Take/put-back/outside-close/unblock operations over 1-3 keys for every (Capacity, KeyCapacity) in {-1,0,1,2,3}^2 with no expiry firing; (expiry) Expiration=1ms, an expiry callback parked at one of its three internal points (fired / after Close / before the lock), 1-5 operations (Take, Put, put-back, pool.Close) run inside that window, release, more operations; (concurrent) 4 goroutines x 120 Put/Take over 2-3 keys with perturbed scheduling, with and without expiry, in half of the cases with connections whose Close takes 20-220 us; (handles) 2-3 connection handles from Pool.Get over 1-2 keys, 6-19 seeded Invoke (a fifth with a context that is over already) / NewStream (a quarter of them refused by the underlying connection, which stays open) / finish-a-stream / handle.Close operations: an underlying connection never serves two callers at once and never after it was closed, a wrapped stream's context ends only after the stream finished, every dialed connection ends up closed exactly once. After every operation and in every window the pool is walked under its lock. Non-trivial: histories of >= 3 operations. Distinct: by configuration and history.",
 		Assumptions: []string{
 			"which eligible connection Take returns and which entry is evicted are not asserted",
 			"a connection that was already closed when Put is called may be dropped without a pool-initiated Close",
